@@ -4,8 +4,9 @@
 EXTENDS Deb822Struct, GenLib
 b(s) == s
 x == <<120>>  ab == <<97, SP, 98>>  acb == <<97, COMMA, SP, 98>>  l12 == <<108, 49, LF, 108, 50>>
-Rec1 == [S : {<<>>, x, ab, l12}, Renamed : {<<>>, <<114>>}, Req : {<<>>, <<113>>}, Skip : {<<>>, <<104, 105, 100>>},
-         Multi : {<<>>, <<109, 49, LF, 109, 50>>, <<111, 110, 101>>}]
+hashline == <<108, 49, LF, HASH, 50>>                   \* "l1\n#2" : a second line that starts with '#' is text
+Rec1 == [S : {<<>>, x, ab, l12, hashline}, Renamed : {<<>>, <<114>>}, Req : {<<>>, <<113>>}, Skip : {<<>>, <<104, 105, 100>>},
+         Multi : {<<>>, <<109, 49, LF, 109, 50>>, <<111, 110, 101>>, <<109, 49, LF, SP, HASH, SP, 109, 50, LF, 109, 51>>}]
 Rec2 == [I : {0, 1, -7, 2147483647}, U : {0, 5}, B : BOOLEAN, ReqI : {0, 3}, ReqB : BOOLEAN]
 StrLists == {<<>>, <<<<97>>>>, <<<<98, SP, 99>>>>, <<<<97>>, <<98, SP, 99>>>>, <<<<98, SP, 99>>, <<97>>>>}
 Rec3 == [L : StrLists, LS : {<<>>, <<x>>, <<x, <<121, SP, 122>>>>}, Sp : {<<>>, <<<<112>>>>, <<<<112>>, <<113>>>>},
@@ -28,7 +29,7 @@ kName == <<78, 97, 109, 101, 58, 32, 110>>                  \* "Name: n"
 kCount == <<67, 111, 117, 110, 116, 58, 32, 52>>            \* "Count: 4"
 kTags == <<84, 97, 103, 115, 58, 32, 116, 49, 44, 32, 116, 50>>   \* "Tags: t1, t2"
 uA == <<88, 45, 65, 58, 32, 117, 110, 107>>                 \* "X-A: unk"
-uB == <<88, 45, 66, 58, 32, 102, LF, SP, 109, 111, 114, 101, LF, SP, DOT, LF, SP, 101, 110, 100>>   \* "X-B: f\n more\n .\n end"
+uB == <<88, 45, 66, 58, 32, 102, LF, SP, 109, 111, 114, 101, LF, SP, DOT, LF, SP, HASH, 104, LF, SP, 101, 110, 100>>   \* "X-B: f\n more\n .\n #h\n end"
 uC == <<88, 45, 67, 58>>                                    \* "X-C:"
 uLower == <<110, 97, 109, 101, 58, 32, 108, 111, 119>>     \* "name: low"   (not the known key Name)
 uUpper == <<67, 79, 85, 78, 84, 58, 32, 55>>                \* "COUNT: 7"    (not the known key Count)
